@@ -279,6 +279,7 @@ pub struct Checker<'a>
     gc_guaranteed_this_step: bool,
     in_direct_step: bool,
     in_gc: bool,
+    in_op_prologue: bool,
     /// Polls happen at runner boundaries, at explicit poll calls and in `Last`: all visible in the trace. The epoch advances at
     /// each of them, so "no poll can have happened since X" is decidable.
     poll_epoch: u64,
@@ -329,7 +330,7 @@ impl<'a> Checker<'a>
             tokens: vec![None; prog.insts.len()], res: [0, 0, 0], res_t_present: true, payloads: HashMap::new(), pending_immediate_drop: None,
             polled: Vec::new(), postponed: Vec::new(), stack: Vec::new(), tree_depth: 0, seq: 0, sender: (DRIVER, 0),
             wr_keys: [Vec::new(), Vec::new()], sigs: vec![(None, 0); 4], doomed_ents: Vec::new(), resolve_uncertain: Vec::new(), fifo: HashMap::new(),
-            gc_guaranteed_this_step: false, in_direct_step: false, in_gc: false, poll_epoch: 0, gc_must: Vec::new(), gc_pending_deadline: false, gc_before: Vec::new(), doomed_in_tree: Vec::new(), sig_harness: [0; 4], deferred_bail: None, bulk_released: 0, bulk_held: 0, bulk_alive: 0, wq: Default::default(), iss_counter: 0, cur_iss: 0, iss_of: HashMap::new(), sys: Default::default(),
+            gc_guaranteed_this_step: false, in_direct_step: false, in_gc: false, in_op_prologue: false, poll_epoch: 0, gc_must: Vec::new(), gc_pending_deadline: false, gc_before: Vec::new(), doomed_in_tree: Vec::new(), sig_harness: [0; 4], deferred_bail: None, bulk_released: 0, bulk_held: 0, bulk_alive: 0, wq: Default::default(), iss_counter: 0, cur_iss: 0, iss_of: HashMap::new(), sys: Default::default(),
         }
     }
 
@@ -412,8 +413,11 @@ impl<'a> Checker<'a>
                 if !self.ents[e].alive { return Ok(true); }
                 // (the spec may be in the middle of applying the op that explains it -- a manual despawn of an entity that also happens
                 // to have no clone left is *not* a collection and is not recursive: decide when the next structural event is consumed)
-                if !last_chance { return Ok(false); }
-                if self.doomed_ents.contains(&e) || self.has_doomed_ancestor(e)
+                let collectable = self.doomed_ents.contains(&e) || self.has_doomed_ancestor(e);
+                // Seen while looking ahead in the prologue of a world operation (before its own effect has been applied to the spec): a
+                // manual despawn of an entity that also happens to have no clone left is *not* a collection and is not recursive.
+                if !last_chance && (self.in_op_prologue || !collectable) { return Ok(false); }
+                if collectable
                 {
                     self.stats.collected_observed += 1;
                     self.doomed_ents.retain(|x| *x != e);
@@ -2008,7 +2012,7 @@ impl<'a> Checker<'a>
     fn exec_wop(&mut self, w: &WOp, u: u32) -> Res<()>
     {
         // (nearly every world operation flushes the world's command queue before it acts)
-        if !self.wq.is_empty() { self.drain_wq()?; }
+        if !self.wq.is_empty() { self.in_op_prologue = true; let r = self.drain_wq(); self.in_op_prologue = false; r?; }
         let slot = |me: &Self, s: Slot| me.slots[s as usize];
         match w
         {
